@@ -1,6 +1,7 @@
 package main
 
 import (
+	"path/filepath"
 	"fmt"
 	"go/constant"
 	"go/token"
@@ -157,6 +158,8 @@ type Engine struct {
 	knownTags    map[string]bool // assertion messages that are known findings: do not stop, do not count
 	knownHit     map[string]*Violation
 	timeNow      *Term
+	guards       map[*Cell]guardInfo // lockset discipline declared by vGuardedBy
+	harnessFn    map[*ssa.Function]bool
 	noBlockMsg   string // while set, a call that blocks forever is a violation (vMustNotBlock)
 	clockSkew    uint64 // ns added to the concrete clock by timers that fired while waiting
 	nowSeq       int
@@ -235,6 +238,10 @@ func (e *Engine) resetPath(prefix []decision) {
 	e.timeNow = nil
 	e.noBlockMsg = ""
 	e.clockSkew = 0
+	e.guards = nil
+	if e.harnessFn == nil {
+		e.harnessFn = map[*ssa.Function]bool{}
+	}
 	e.nowSeq, e.crcSeq, e.rndSeq, e.bitsSeq = 0, 0, 0, 0
 	e.pathVars = e.pathVars[:0]
 	e.crcMemo = nil
@@ -693,6 +700,52 @@ func (e *Engine) reportViolation(kind, msg string, model map[*Term]uint64) {
 	}
 	e.violations = append(e.violations, v)
 	panic(pathEnd{kind: "violation", msg: msg})
+}
+
+type guardInfo struct {
+	lock *Cell // the sync.Mutex / sync.RWMutex cell that must be held
+	name string
+}
+
+// checkGuard is the lockset discipline of vGuardedBy: code of the package under check (not
+// harness code) may read a guarded field only with its lock held in some mode and write it
+// only with the lock held exclusively. The native replay confirms a report with the race
+// detector (a goroutine touching the field under the lock runs beside the harness).
+func (e *Engine) checkGuard(fr *Frame, p Ptr, write bool) {
+	if p.c == nil {
+		return
+	}
+	gi, ok := e.guards[p.c]
+	if !ok {
+		return
+	}
+	isH, seen := e.harnessFn[fr.fn]
+	if !seen {
+		isH = strings.HasPrefix(filepath.Base(e.prog.Fset.Position(fr.fn.Pos()).Filename), "zz_verif_")
+		if fr.fn.Parent() != nil && !isH {
+			isH = strings.HasPrefix(filepath.Base(e.prog.Fset.Position(fr.fn.Parent().Pos()).Filename), "zz_verif_")
+		}
+		e.harnessFn[fr.fn] = isH
+	}
+	if isH {
+		return
+	}
+	g := e.ghostOf(gi.lock)
+	if g.locked > 0 || (!write && g.readers > 0) {
+		return
+	}
+	if e.noFork > 0 {
+		panic(mergeAbort{"guard report inside merge"})
+	}
+	how := "read"
+	if write {
+		how = "written"
+		if g.readers > 0 {
+			how = "written under a read lock"
+		}
+	}
+	_, m := e.query(e.ts.True, e.modelTermsOr())
+	e.reportViolation("unguarded", gi.name+" is "+how+" without its lock held (data race with any concurrent API call)", m)
 }
 
 // block ends the path at an operation that can never proceed in the sequential execution.
@@ -1162,6 +1215,9 @@ func (e *Engine) execInstr(fr *Frame, ins ssa.Instruction) {
 	case *ssa.Slice:
 		fr.regs[x] = e.sliceOp(fr, x)
 	case *ssa.Store:
+		if len(e.guards) > 0 {
+			e.checkGuard(fr, e.get(fr, x.Addr).(Ptr), true)
+		}
 		e.storePtr(e.get(fr, x.Addr).(Ptr), e.get(fr, x.Val))
 	case *ssa.TypeAssert:
 		fr.regs[x] = e.typeAssert(fr, x)
@@ -1288,6 +1344,9 @@ func (e *Engine) unop(fr *Frame, x *ssa.UnOp) Value {
 	v := e.get(fr, x.X)
 	switch x.Op {
 	case token.MUL:
+		if len(e.guards) > 0 {
+			e.checkGuard(fr, v.(Ptr), false)
+		}
 		return e.loadPtr(v.(Ptr))
 	case token.NOT:
 		return e.ts.Not(v.(*Term))
